@@ -121,7 +121,30 @@ def r06_2_order(ctx):
         v = kwarg(c, 'sort_keys')
         if v is None and len(args) > pos:
             v = args[pos]
-        r.check(isinstance(v, ast.Constant) and v.value is False, 'SafeDumper.__init__(.., sort_keys=False) (position %d)' % idx,
+        fixed_false = isinstance(v, ast.Constant) and v.value is False
+        if not fixed_false and v is not None:
+            # `sort_keys if <switch> else False`: the caller's choice is honoured - fine when every yaml.dump site of the package
+            # passes sort_keys explicitly from a parameter that defaults to False (PyYAML's own default is True)
+            arms = [v.body, v.orelse] if isinstance(v, ast.IfExp) else [v]
+            own_param = 'sort_keys' in f.fi.params
+            arms_ok = own_param and all((isinstance(a_, ast.Constant) and a_.value is False) or norm(a_) == 'sort_keys' for a_ in arms)
+            sites_ok = True
+            n_sites = 0
+            for fi2, c2 in S.yaml_calls(P, 'dump') + S.yaml_calls(P, 'dump_all'):
+                n_sites += 1
+                kv = kwarg(c2, 'sort_keys')
+                a2 = fi2.node.args
+                dflt = {}
+                pos2 = a2.posonlyargs + a2.args
+                for p_, d_ in zip(pos2[len(pos2) - len(a2.defaults):], a2.defaults):
+                    dflt[p_.arg] = d_
+                for p_, d_ in zip(a2.kwonlyargs, a2.kw_defaults):
+                    if d_ is not None:
+                        dflt[p_.arg] = d_
+                if not (isinstance(kv, ast.Name) and kv.id in dflt and isinstance(dflt[kv.id], ast.Constant) and dflt[kv.id].value is False):
+                    sites_ok = False
+            fixed_false = arms_ok and sites_ok and n_sites > 0
+        r.check(fixed_false, 'SafeDumper.__init__(.., sort_keys=False) (position %d)' % idx,
                 f.key('sort_keys'), f.loc(c), 'sort_keys is %s: mapping keys are re-sorted and attribute order is lost'
                 % (norm(v) if v is not None else 'left to the default (True)'))
     # no sorting in the dump path
